@@ -64,6 +64,10 @@ type descriptor struct {
 	// never requested); the real flow carries a true condition. The start event
 	// fires once, whichever of its flows the token takes.
 	CondStarts int `json:"condStarts,omitempty"`
+	// EagerWait: the goroutine that calls StartAll calls WaitUntilComplete the
+	// moment StartAll has returned (nothing settles in between): that wait is
+	// waiter 0 and is judged like every other one
+	EagerWait bool `json:"eagerWait,omitempty"`
 }
 
 func build(d descriptor) *gen.Graph {
@@ -244,7 +248,18 @@ func runCase(d descriptor) *result {
 		r.History = append(r.History, fmt.Sprintf("wait before the start (context expired: %v)", d.PreWait == 1))
 	}
 	startDone := make(chan error, 1)
-	go func() { startDone <- in.StartAll() }()
+	var eager *waiter
+	if d.EagerWait {
+		eager = &waiter{id: 0, res: make(chan bool, 1)}
+		eager.ctx, eager.cancel = context.WithCancel(context.Background())
+	}
+	go func() {
+		e := in.StartAll()
+		startDone <- e // (buffered: does not wait for a reader)
+		if e == nil && eager != nil {
+			eager.res <- in.P.WaitUntilComplete(eager.ctx)
+		}
+	}()
 	gs, qerr := in.Quiesce()
 	if qerr != nil {
 		r.Inconcl = qerr.Error()
@@ -275,6 +290,10 @@ func runCase(d descriptor) *result {
 		return fail("requests", fmt.Sprintf("after start: requests %v want %v", got, obs.Requests), gs)
 	}
 	var waiters []*waiter
+	if eager != nil {
+		waiters = append(waiters, eager)
+		r.Waits++
+	}
 	newWaiter := func() *waiter {
 		w := &waiter{id: len(waiters), res: make(chan bool, 1), startedDone: m.Done()}
 		w.ctx, w.cancel = context.WithCancel(context.Background())
@@ -502,6 +521,7 @@ func draw(rt *rapid.T) descriptor {
 		d.SplitCtx = true
 		kinds = append(kinds, "cancelBuild")
 	}
+	d.EagerWait = rapid.Bool().Draw(rt, "eagerWait")
 	if rapid.IntRange(0, 2).Draw(rt, "condStarts") == 0 {
 		d.CondStarts = rapid.IntRange(1, 1<<d.Starts-1).Draw(rt, "condStartMask")
 	}
